@@ -48,13 +48,18 @@ def respelling(ver):
         a = ref.build(prefix, d, order)
         d2 = dict(d)
         cands = [m for m in V.optional if d.get(m, V.nd) == V.nd]
-        single = draw(st.booleans())
+        how = draw(st.sampled_from(("single", "single", "subset", "subset", "all", "group")))
         toggles = 0
         if cands:
-            if single:
+            if how == "single":
                 chosen = [draw(st.sampled_from(cands))]
-            else:
+            elif how == "subset":
                 chosen = [m for m in cands if draw(st.booleans())]
+            elif how == "all":
+                chosen = list(cands)                      # write out / remove every Not Defined optional
+            else:
+                g = draw(st.sampled_from(sorted(V.groups)))     # all Not Defined metrics of one group
+                chosen = [m for m in cands if m in V.groups[g]]
             for m in chosen:
                 if m in d2:
                     del d2[m]
